@@ -40,16 +40,28 @@ func ruleC19ListedFirst(c *Ctx) {
 		if !ok {
 			return
 		}
+		writes := func(f *ssa.Function) bool {
+			w := false
+			core.EachInstr(f, func(j ssa.Instruction) {
+				if c2, ok := j.(ssa.CallInstruction); ok && isSinkWrite(core.CalleeKey(c2.Common())) {
+					w = true
+				}
+			})
+			return w
+		}
+		added := false
 		for _, src := range traceSources(call.Call.Value) {
-			if mc, ok := src.(*ssa.MakeClosure); ok {
-				w := false
-				core.EachInstr(mc.Fn.(*ssa.Function), func(j ssa.Instruction) {
-					if c2, ok := j.(ssa.CallInstruction); ok && isSinkWrite(core.CalleeKey(c2.Common())) {
-						w = true
-					}
-				})
-				if w {
+			if mc, ok := src.(*ssa.MakeClosure); ok && writes(mc.Fn.(*ssa.Function)) && !added {
+				emits = append(emits, call)
+				added = true
+			}
+		}
+		// ... or a package function or method that writes one entry (key and value) to the sink
+		if callee := call.Call.StaticCallee(); !added && callee != nil && c.P.InPkg(callee) && callee != em && callee.Parent() == nil && writes(callee) {
+			for _, a := range call.Call.Args {
+				if tString(a.Type()) {
 					emits = append(emits, call)
+					break
 				}
 			}
 		}
@@ -63,7 +75,7 @@ func ruleC19ListedFirst(c *Ctx) {
 		first, second = second, first
 	}
 	// first: key ranges over the order field, guarded by presence in props, followed by recording
-	okFirst := c.mentionsField(first.Call.Args[0], "orderedProperties.order", 8)
+	okFirst := c.mentionsField(emitName(first), "orderedProperties.order", 8)
 	c.R.Check(okFirst, rule, "first-pass:ranges-over-order", c.pos(first), "the first pass emits the names of PropertyOrder in their order", "the first emission pass does not iterate PropertyOrder")
 	// ... the whole of it: what is handed over as the order is Schema.PropertyOrder itself, not a part of it
 	nOrd := 0
@@ -109,7 +121,7 @@ func ruleC19ListedFirst(c *Ctx) {
 			if st, ok := mu.Value.Type().Underlying().(*types.Struct); ok && st.NumFields() == 0 {
 				isMember = true
 			}
-			if isMember && sharesSource(mu.Key, first.Call.Args[0]) {
+			if isMember && sharesSource(mu.Key, emitName(first)) {
 				processed = mu.Map
 			}
 		}
@@ -117,7 +129,7 @@ func ruleC19ListedFirst(c *Ctx) {
 	c.R.Check(processed != nil, rule, "first-pass:recorded", c.pos(first), "every emitted listed name is recorded as processed", "an emitted listed name is not recorded: it would be emitted again with the remainder")
 	// second: ranges over a slice that was filled under !processed[name] from the props map and sorted
 	var remaining ssa.Value
-	for _, s := range traceSourcesPhi(second.Call.Args[0]) {
+	for _, s := range traceSourcesPhi(emitName(second)) {
 		remaining = s.val
 	}
 	var sortCall *ssa.Call
@@ -155,11 +167,11 @@ func ruleC19ListedFirst(c *Ctx) {
 	})
 	// ... or every name of the map is gone through in sorted order and the processed ones are passed over at the emission
 	for _, g := range guardsOf(second) {
-		if lk, ok := g.Cond.(*ssa.Lookup); ok && !g.Pol && processed != nil && sharesSource(lk.X, processed) && sharesSource(lk.Index, second.Call.Args[0]) {
+		if lk, ok := g.Cond.(*ssa.Lookup); ok && !g.Pol && processed != nil && sharesSource(lk.X, processed) && sharesSource(lk.Index, emitName(second)) {
 			collected = true
 		}
 		if ex, ok := g.Cond.(*ssa.Extract); ok && !g.Pol && ex.Index == 1 && processed != nil {
-			if lk, ok := ex.Tuple.(*ssa.Lookup); ok && sharesSource(lk.X, processed) && sharesSource(lk.Index, second.Call.Args[0]) {
+			if lk, ok := ex.Tuple.(*ssa.Lookup); ok && sharesSource(lk.X, processed) && sharesSource(lk.Index, emitName(second)) {
 				collected = true
 			}
 		}
@@ -718,4 +730,14 @@ func skippable(g guardAtom, at ssa.Instruction) bool {
 		}
 	}
 	return !mustPass(other, map[*ssa.BasicBlock]bool{at.Block(): true}, targets)
+}
+
+// emitName: the property name handed to an emission call (its first string argument: a method has its receiver first).
+func emitName(call *ssa.Call) ssa.Value {
+	for _, a := range call.Call.Args {
+		if tString(a.Type()) {
+			return a
+		}
+	}
+	return call.Call.Args[0]
 }
